@@ -104,12 +104,19 @@ def _origin(cfg, rd, node, e, depth, seen):
         return ("item", _origin(cfg, rd, node, e.value, depth + 1, seen),
                 _origin(cfg, rd, node, e.slice, depth + 1, seen))
     if isinstance(e, ast.Call):
+        ident = getattr(cfg.fi, "identity_callees", None)
+        if ident and isinstance(e.func, ast.Name) and e.func.id in ident and not rd.get(node.id, {}).get(e.func.id):
+            i = ident[e.func.id]
+            if i < len(e.args) and not any(isinstance(a, ast.Starred) for a in e.args[:i + 1]):
+                return _origin(cfg, rd, node, e.args[i], depth + 1, seen)     # f(x) is x when f returns its argument
         return ("call", _origin(cfg, rd, node, e.func, depth + 1, seen),
                 tuple(_origin(cfg, rd, node, a, depth + 1, seen) for a in e.args),
                 tuple((k.arg, _origin(cfg, rd, node, k.value, depth + 1, seen)) for k in e.keywords))
     if isinstance(e, ast.BoolOp):
         return ("or" if isinstance(e.op, ast.Or) else "and",
                 tuple(_origin(cfg, rd, node, v, depth + 1, seen) for v in e.values))
+    if isinstance(e, ast.UnaryOp) and isinstance(e.op, ast.USub) and isinstance(e.operand, ast.Constant) and isinstance(e.operand.value, (int, float)):
+        return ("const", -e.operand.value)
     if isinstance(e, ast.JoinedStr):
         return ("call", ("global", "<f-string>"),
                 tuple(_origin(cfg, rd, node, v.value, depth + 1, seen) for v in e.values if isinstance(v, ast.FormattedValue)), ())
@@ -132,6 +139,16 @@ def alts(term):
         out = set()
         for t in term[1]:
             out |= alts(t)
+        return out
+    return set([term])
+
+
+def value_alts(term):
+    """Values a term can denote: phi, `a or b` and `a and b` flattened (each operand may be the result)."""
+    if term[0] in ("phi", "or", "and"):
+        out = set()
+        for t in term[1]:
+            out |= value_alts(t)
         return out
     return set([term])
 
